@@ -244,6 +244,14 @@ def check(case, rec):
                     "%r" % (axis, c, col, want))
         gm = c01.gmd_payloads(t.group_metadata(axis))
         got = {k: v["value"] for k, v in dec[axis]["group_metadata"].items()}
+        for k, v in dec[axis]["group_metadata"].items():
+            want_dt = (t.group_metadata(axis) or {}).get(k)
+            want_dt = want_dt[0] if isinstance(want_dt, (list, tuple)) \
+                else None
+            if want_dt is not None and v.get("data_type") != want_dt:
+                bad("group-metadata", "%s/group-metadata/%s has data_type "
+                    "%r, the table says %r" % (axis, k, v.get("data_type"),
+                                               want_dt))
         if got != gm:
             bad("group-metadata", "%s: %r != %r" % (axis, got, gm))
     want_id = src["table_id"] if src["table_id"] else "No Table ID"
